@@ -15,3 +15,4 @@ uint8_t g_cval; char* g_vsv_buf; size_t g_vsv_cap; size_t g_it_next, g_it_prefix
 
 void h_read_all_fd(void) { IN_GHOSTS; int in_fd; vstr* r; phosg_read_all_fd(r, in_fd); VERIF_REACH(); }
 void h_read_all_file(void) { IN_GHOSTS; C14_FILE* f; vstr* r; phosg_read_all_file(r, f); VERIF_REACH(); }
+void h_fgets(void) { IN_GHOSTS; C14_FILE* f; vstr* r; phosg_fgets(r, f); VERIF_REACH(); }
